@@ -107,10 +107,12 @@ namespace TAO_PEGTL_NAMESPACE
          template< typename Rule, typename ParseInput, typename... States >
          void raise( const ParseInput& /*unused*/, States&&... /*unused*/ )
          {
+            // For raise< T > the blamed rule T is neither a sub-rule of raise< T > nor
+            // necessarily part of the grammar, i.e. there might be no entries yet.
             const auto name = demangle< Rule >();
-            ++result.at( name ).raise;
+            ++result[ name ].raise;
             if( !stack.empty() ) {
-               ++result.at( stack.back() ).branches.at( name ).raise;
+               ++result.at( stack.back() ).branches[ name ].raise;
             }
          }
 
